@@ -80,8 +80,8 @@ def decide_le0(st, lin, what):
 
 
 def deref(I, st, v):
-    while isinstance(v, VRef):
-        v = I.read_ref(st, v)
+    while isinstance(v, (VRef, VBox)):
+        v = I.read_ref(st, v) if isinstance(v, VRef) else v.inner
     return v
 
 
@@ -395,7 +395,8 @@ def p_verify(I, st, pv, inp, ctx):
                 d = s3.decide(b.cond)
                 if d is True or d is None:
                     for s4 in s3.assume(b.cond, True):
-                        s4.event("verify", valkey(v), True)
+                        vs = s4.lin_set(lin_of(s4, v)) if isinstance(v, VInt) else None
+                        s4.event("verify", valkey(v), True, vs)
                         out.append((s4, ok_pair(rest, v)))
                 if d is False or d is None:
                     for s4 in s3.assume(b.cond, False):
@@ -408,6 +409,7 @@ def p_verify(I, st, pv, inp, ctx):
 @parser("opt")
 def p_opt(I, st, pv, inp, ctx):
     out = []
+    n0 = len(st.events)
     for s2, r in run(I, st, pv.args[0], inp, ctx):
         if is_ok(r):
             rest, v = r.fields[0].items
@@ -415,6 +417,7 @@ def p_opt(I, st, pv, inp, ctx):
         else:
             k = err_kind(I, r)
             if k == "Error":
+                _abandon(s2, n0)
                 out.append((s2, ok_pair(inp, NONE)))
             elif k is None:
                 raise Unanalysable("opt(): opaque error kind")
@@ -511,12 +514,14 @@ def p_alt(I, st, pv, inp, ctx):
     for i, p in enumerate(alts.items):
         nxt = []
         for s in pending:
+            n0 = len(s.events)
             for s2, r in run(I, s, p, inp, ctx):
                 if is_ok(r):
                     out.append((s2, r))
                 else:
                     k = err_kind(I, r)
                     if k == "Error":
+                        _abandon(s2, n0)
                         nxt.append(s2)
                     elif k is None:
                         raise Unanalysable("alt(): opaque error kind")
@@ -725,6 +730,22 @@ def h_branch(I, st, callee, target, args, ctx):
         if v.variant == 1:
             return [(st, VAdt(CONTROLFLOW, cf_cont, (v.fields[0],)))]
         return [(st, VAdt(CONTROLFLOW, cf_break, (NONE,)))]
+    if isinstance(v, VApp):
+        key = ("res", valkey(v))
+        cur = st.pc.opq.get(key)
+        outs = []
+        for (vi, payload) in I.leaf_result_variants(st, v):
+            okk = vi == 0
+            if cur is not None and cur != okk:
+                continue
+            s2 = st.copy()
+            s2.pc.opq[key] = okk
+            s2.event("leaf_result", v.defn, okk)
+            if okk:
+                outs.append((s2, VAdt(CONTROLFLOW, cf_cont, (payload,))))
+            else:
+                outs.append((s2, VAdt(CONTROLFLOW, cf_break, (mk_err(payload),))))
+        return outs
     if isinstance(v, (VOpaque, VApp)):
         tag = v.tag if isinstance(v, VOpaque) else repr(v)
         key = ("res", valkey(v))
@@ -1165,6 +1186,8 @@ def h_deref(I, st, callee, target, args, ctx):
         return [(st, r if isinstance(r, VRef) else v)]
     if isinstance(v, VElems):
         return [(st, v)]
+    if isinstance(v, VOpaque):
+        return [(st, VOpaque(v.tag + ".deref"))]
     raise Unanalysable("deref of %r" % (v,))
 
 
@@ -1189,6 +1212,10 @@ for _k in ["alloc::fmt::format", "core:Argument<'_>::new_display", "core:Argumen
 def h_from_utf8(I, st, callee, target, args, ctx):
     v = deref(I, st, args[0])
     ascii_only = I.bytes_all_ascii(st, v)
+    if isinstance(v, VSlice):
+        for e in st.events:
+            if e[0] in ("g", "gp") and e[1] == "digit1" and e[3] == v.buf and e[4] == v.start and e[5] == v.start + v.len:
+                ascii_only = True
     term = ("utf8", valkey(v))
     if ascii_only:
         return [(st, mk_ok(VStr(term)))]
@@ -1428,3 +1455,254 @@ def h_fold(I, st, callee, target, args, ctx):
     op = valkey(r)
     a = ("fold", valkey(it.slice), lin_of(st, init).key(), op, ty_range(w, s).min(), ty_range(w, s).max())
     return [(s2, VInt(w, s, lin=Lin.atom(("opqint",) + a[0:4] + a[4:])))]
+
+
+# ================================================================================================
+# byte-level nom parsers (sentence layer).  Every data-dependent outcome is an opaque boolean
+# fact in the path condition plus a grammar event ('g', kind, params, start, end) recording what
+# was matched where; positions are Lin over fresh position atoms.
+
+def _lit(v):
+    if isinstance(v, VStr) and v.term[0] == "cstr":
+        return v.term[1]
+    if isinstance(v, VSlice) and isinstance(v.buf, tuple) and v.buf[0] == "cbytes":
+        return v.buf[1]
+    raise Unanalysable("literal expected, got %r" % (v,))
+
+
+def _byte_input(inp):
+    if not isinstance(inp, VSlice):
+        raise Unanalysable("byte input expected, got %r" % (inp,))
+    return inp
+
+
+def _fork(st, key):
+    """-> (st_true or None, st_false or None) honouring an existing decision"""
+    cur = st.pc.opq.get(key)
+    if cur is True:
+        return st, None
+    if cur is False:
+        return None, st
+    a, b = st, st.copy()
+    a.pc.opq[key] = True
+    b.pc.opq[key] = False
+    return a, b
+
+
+def _constrain_byte(st, buf, poslin, allowed):
+    """intersect the value set of a line byte; False when the path becomes infeasible"""
+    a = ("byte", buf, poslin.key())
+    cur = st.aset(a)
+    new = cur.intersect(allowed)
+    if new.is_empty():
+        return False
+    st.pc.sets[a] = new
+    return True
+
+
+def _abandon(st, n0):
+    """events of a sub-parse that was backtracked over (opt / alt) are not part of the match"""
+    ev = list(st.events)
+    for i in range(n0, len(ev)):
+        if ev[i][0] in ("g", "gp"):
+            ev[i] = ("gx",) + ev[i][1:]
+    st.events = tuple(ev)
+
+
+def _fresh_pos(st, name, lo_lin):
+    n = len([e for e in st.events if e[0] in ("g", "gp")])
+    return ("sym", "%s#%d" % (name, n), 0, MAXLEN)
+
+
+def _add_fact_le0(st, lin):
+    """assume lin <= 0 on st (in place semantics via returned state list)"""
+    outs = st.assume(("le0", lin), True)
+    return outs[0] if outs else None
+
+
+@parser("tag")
+def p_tag(I, st, pv, inp, ctx):
+    s = _lit(pv.args[0])
+    sl = _byte_input(inp)
+    key = ("tag", sl.buf if not isinstance(sl.buf, tuple) else tuple(sl.buf), sl.start.key(), s)
+    ok, no = _fork(st, key)
+    out = []
+    if ok is not None:
+        ok = _add_fact_le0(ok, -sl.len + len(s))      # len >= |s|
+        if ok is not None and all(_constrain_byte(ok, sl.buf, sl.start + i, IntSet.of(b)) for i, b in enumerate(s)):
+            ok.event("g", "tag", s, sl.buf, sl.start, sl.start + len(s))
+            out.append((ok, ok_pair(VSlice(sl.buf, sl.start + len(s), sl.len - len(s)), VSlice(sl.buf, sl.start, Lin.const(len(s))))))
+    if no is not None:
+        no.event("gfail", "tag", s, sl.buf, sl.start)
+        out.append((no, nom_err(I, "Error", VOpaque("Tag"))))
+    return out
+
+
+@parser("take_bytes")
+def p_take_bytes(I, st, pv, inp, ctx):
+    n = const_of(st, pv.args[0], "take count")
+    if n is None:
+        raise Unanalysable("bytes::take count not constant")
+    sl = _byte_input(inp)
+    d = st.decide(("le0", -sl.len + n))
+    outs = []
+    cases = [(True, st)] if d is True else ([(False, st)] if d is False else [(True, None), (False, None)])
+    for want, s0 in cases:
+        if s0 is None:
+            xs = st.copy().assume(("le0", -sl.len + n), want)
+            if not xs:
+                continue
+            s0 = xs[0]
+        if want:
+            s0.event("g", "take", n, sl.buf, sl.start, sl.start + n)
+            outs.append((s0, ok_pair(VSlice(sl.buf, sl.start + n, sl.len - n), VSlice(sl.buf, sl.start, Lin.const(n)))))
+        else:
+            s0.event("gfail", "take", n, sl.buf, sl.start)
+            outs.append((s0, nom_err(I, "Error", VOpaque("Eof"))))
+    return outs
+
+
+@parser("take_until")
+def p_take_until(I, st, pv, inp, ctx):
+    s = _lit(pv.args[0])
+    sl = _byte_input(inp)
+    key = ("take_until", sl.buf if not isinstance(sl.buf, tuple) else tuple(sl.buf), sl.start.key(), s)
+    ok, no = _fork(st, key)
+    out = []
+    if ok is not None:
+        p = _fresh_pos(ok, "until", sl.start)
+        pl = Lin.atom(p)
+        total = sl.start + sl.len
+        ok = _add_fact_le0(ok, sl.start - pl)                 # p >= start
+        ok = _add_fact_le0(ok, pl + len(s) - total) if ok is not None else None      # p + |s| <= total
+        if ok is not None and all(_constrain_byte(ok, sl.buf, pl + i, IntSet.of(b)) for i, b in enumerate(s)):
+            ok.event("g", "take_until", s, sl.buf, sl.start, pl)
+            out.append((ok, ok_pair(VSlice(sl.buf, pl, total - pl), VSlice(sl.buf, sl.start, pl - sl.start))))
+    if no is not None:
+        no.event("gfail", "take_until", s, sl.buf, sl.start)
+        out.append((no, nom_err(I, "Error", VOpaque("TakeUntil"))))
+    return out
+
+
+@ext("nom::character::complete::digit1")
+def h_digit1(I, st, callee, target, args, ctx):
+    sl = _byte_input(args[0])
+    key = ("digit1", sl.buf if not isinstance(sl.buf, tuple) else tuple(sl.buf), sl.start.key())
+    ok, no = _fork(st, key)
+    out = []
+    if ok is not None:
+        q = _fresh_pos(ok, "digits", sl.start)
+        ql = Lin.atom(q)
+        total = sl.start + sl.len
+        ok = _add_fact_le0(ok, sl.start + 1 - ql)             # at least one digit
+        ok = _add_fact_le0(ok, ql - total) if ok is not None else None
+        if ok is not None and _constrain_byte(ok, sl.buf, sl.start, IntSet.range(48, 57)) and _constrain_byte(ok, sl.buf, ql - 1, IntSet.range(48, 57)):
+            ok.event("g", "digit1", None, sl.buf, sl.start, ql)
+            out.append((ok, ok_pair(VSlice(sl.buf, ql, total - ql), VSlice(sl.buf, sl.start, ql - sl.start))))
+    if no is not None:
+        no.event("gfail", "digit1", None, sl.buf, sl.start)
+        out.append((no, nom_err(I, "Error", VOpaque("Digit"))))
+    return out
+
+
+@ext("nom::number::complete::hex_u32")
+def h_hex_u32(I, st, callee, target, args, ctx):
+    sl = _byte_input(args[0])
+    key = ("hex_u32", sl.buf if not isinstance(sl.buf, tuple) else tuple(sl.buf), sl.start.key())
+    ok, no = _fork(st, key)
+    out = []
+    if ok is not None:
+        q = _fresh_pos(ok, "hex", sl.start)
+        ql = Lin.atom(q)
+        total = sl.start + sl.len
+        ok = _add_fact_le0(ok, sl.start + 1 - ql)             # at least one hex digit
+        ok = _add_fact_le0(ok, ql - sl.start - 8) if ok is not None else None     # at most eight are read
+        ok = _add_fact_le0(ok, ql - total) if ok is not None else None
+        hexset = IntSet([(48, 57), (65, 70), (97, 102)])
+        if ok is not None and _constrain_byte(ok, sl.buf, sl.start, hexset):
+            ok.event("g", "hex_u32", 8, sl.buf, sl.start, ql)
+            val = VInt(32, False, lin=Lin.atom(("hexval", sl.buf, sl.start.key(), 0, (1 << 32) - 1)))
+            out.append((ok, ok_pair(VSlice(sl.buf, ql, total - ql), val)))
+    if no is not None:
+        no.event("gfail", "hex_u32", None, sl.buf, sl.start)
+        out.append((no, nom_err(I, "Error", VOpaque("IsA"))))
+    return out
+
+
+@ext("nom::character::complete::anychar")
+def h_anychar(I, st, callee, target, args, ctx):
+    sl = _byte_input(args[0])
+    d = decide_le0(st, -sl.len + 1, "anychar")      # len >= 1
+    if d:
+        st.event("g", "anychar", None, sl.buf, sl.start, sl.start + 1)
+        ch = VInt(32, False, lin=Lin.atom(("byte", sl.buf, sl.start.key())))
+        return [(st, ok_pair(VSlice(sl.buf, sl.start + 1, sl.len - 1), ch))]
+    st.event("gfail", "anychar", None, sl.buf, sl.start)
+    return [(st, nom_err(I, "Error", VOpaque("Eof")))]
+
+
+_orig_peek = PARSERS["peek"]
+
+
+@parser("peek")
+def p_peek2(I, st, pv, inp, ctx):
+    n0 = len(st.events)
+    out = []
+    for s2, r in _orig_peek(I, st, pv, inp, ctx):
+        ev = list(s2.events)
+        for i in range(n0, len(ev)):
+            if ev[i][0] == "g":
+                ev[i] = ("gp",) + ev[i][1:]
+        s2.events = tuple(ev)
+        out.append((s2, r))
+    return out
+
+
+def _checked(op):
+    def h(I, st, callee, target, args, ctx):
+        a, b = args
+        la, lb = lin_of(st, a), lin_of(st, b)
+        r = la - lb if op == "sub" else la + lb
+        tr = ty_range(a.w, a.s)
+        lo_ok = decide_le0(st, -r + tr.min(), "checked_" + op)       # r >= min
+        if not lo_ok:
+            return [(st, NONE)]
+        hi_ok = decide_le0(st, r - tr.max(), "checked_" + op)        # r <= max
+        if not hi_ok:
+            return [(st, NONE)]
+        return [(st, mk_some(VInt(a.w, a.s, lin=r)))]
+    return h
+
+
+for _t in ("u8", "u16", "u32", "u64", "usize", "i8", "i16", "i32", "i64", "isize"):
+    EXT["core:%s::checked_sub" % _t] = _checked("sub")
+    EXT["core:%s::checked_add" % _t] = _checked("add")
+    CONTRACT["core:%s::checked_sub" % _t] = "total"
+    CONTRACT["core:%s::checked_add" % _t] = "total"
+
+
+def _wrapping(op):
+    def h(I, st, callee, target, args, ctx):
+        a, b = args
+        return [(st, I.binop(st, {"sub": "Sub", "add": "Add"}[op], a, b))]
+    return h
+
+
+for _t in ("u8", "u16", "u32", "u64", "usize"):
+    EXT["core:%s::wrapping_sub" % _t] = _wrapping("sub")
+    EXT["core:%s::wrapping_add" % _t] = _wrapping("add")
+
+
+@ext("core::option::Option::Some::{constructor#0}")
+def h_some_ctor(I, st, callee, target, args, ctx):
+    return [(st, mk_some(args[0]))]
+
+
+@ext("core::result::Result::Ok::{constructor#0}")
+def h_ok_ctor(I, st, callee, target, args, ctx):
+    return [(st, mk_ok(args[0]))]
+
+
+@ext("core::result::Result::Err::{constructor#0}")
+def h_err_ctor(I, st, callee, target, args, ctx):
+    return [(st, mk_err(args[0]))]
